@@ -201,9 +201,12 @@ def delivery_sites(program):
             f = func_of(c)
             if f is None:
                 continue
-            # delivery happens in subscription classes (queue of the connection), not in the writer thread's task queue
+            # delivery happens in subscription classes (queue of the connection) - or anywhere else that reaches into a subscription's queue
+            # (`sub.queue.put_nowait((sub.sub_id, event))` from the storage object); the writer thread's task queue is not a delivery
             cls = getattr(c, "_class", None)
-            if cls is None or not any(ci.node is cls for ci in [program.cls("nostr_relay.storage.base:BaseSubscription")] + program.subclasses(program.cls("nostr_relay.storage.base:BaseSubscription"), strict=True)):
+            in_sub = cls is not None and any(ci.node is cls for ci in [program.cls("nostr_relay.storage.base:BaseSubscription")] + program.subclasses(program.cls("nostr_relay.storage.base:BaseSubscription"), strict=True))
+            foreign = (not in_sub) and isinstance(c.func, ast.Attribute) and isinstance(c.func.value, ast.Attribute) and c.func.value.attr == "queue" and "sub_id" in ast.unparse(c.args[0].elts[0])
+            if not in_sub and not foreign:
                 continue
             out.append((f, c, second))
     return out
